@@ -3,6 +3,7 @@ C01 — Bus access respects the PROFIBUS idle times (station-level obligations).
 -/
 import ProfiVerif.Model.Station
 import ProfiVerif.Lemmas.StationWho
+import ProfiVerif.Lemmas.StationMark
 
 namespace PV.C01
 open PV
@@ -94,6 +95,16 @@ theorem who_may_transmit (s : Station) (apps : Apps) (now : Int) (phyTx : Bool) 
     (b : Bytes) (h : s.poll apps now phyTx rx = .ok c') (hb : c'.tx = some b) :
     Allowed s now c'.calls b :=
   pollInner_who { s := s, apps := apps, rx := rx } now phyTx c' b h rfl hb
+
+/-- `tx_marks_busy` (every poll, every state, every input): after a `poll` call that handed the telegram
+`b` to the PHY, the station's bus-activity stamp is the predicted end of that transmission,
+`now + 11·|b|` bit times — whichever handler transmitted.  Together with `tx_needs_idle` and
+`tx_not_while_transmitting`: after an own transmission the station does nothing before its predicted end
+and initiates nothing within 33 bit times after it. -/
+theorem tx_marks_busy (s : Station) (apps : Apps) (now : Int) (phyTx : Bool) (rx : Bytes) (c' : Ctx) (b : Bytes)
+    (h : s.poll apps now phyTx rx = .ok c') (hb : c'.tx = some b) :
+    c'.s.lastBusActivity = some (now + (c'.s.p.bits (11 * b.length) : Nat)) :=
+  pollInner_marks { s := s, apps := apps, rx := rx } now phyTx c' b h rfl hb
 
 /-- A listening station that has registered no request never sends anything but its claim. -/
 theorem listener_only_claims (s : Station) (apps : Apps) (now : Int) (phyTx : Bool) (rx : Bytes) (c' : Ctx)
